@@ -1,7 +1,98 @@
-//! op "alloc" (stub: answers bad-op until the engine is built)
+//! op "alloc": the accounting of a runtime driven directly (C09).
+//!   {"op":"alloc","f":"trace","limit":L|null,"events":[["a",id,bytes],["d",id],["p",n],["e",id,bytes],["s",id,bytes]]}
+//!     a = Runtime::allocate of `bytes` bytes (recorded size kept under `id`), d = deallocate/drop `id`,
+//!     p = can_allocate(n), e = a managed error value with a message of `bytes` bytes, s = a managed string value
+//!   answer: {"steps":[[outcome, size_after], …]}  outcome = "ok <recorded>" | "viol" | "noop"
+//!   {"op":"alloc","f":"consts"}  -> the platform constants of the size model
 
+use crate::doubles::{RecClock, RecRng, RecWriter};
 use serde_json::{json, Value};
+use std::any::Any;
+use std::collections::HashMap;
+use xray::builtin::verif_hooks as hooks;
+use xray::builtin::verif_hooks::alloc as ha;
+use xray::runtime::{RTCell, RuntimeLimits};
 
-pub fn op(_req: &Value) -> Value {
-    json!({"bad-op": true})
+type RT = RTCell<RecWriter, RecRng, RecClock>;
+
+enum Live {
+    Recorded(usize),
+    Value(Box<dyn Any>),
+}
+
+pub fn op(req: &Value) -> Value {
+    let limits = RuntimeLimits {
+        size_limit: req.get("limit").and_then(|x| x.as_u64()).map(|x| x as usize),
+        ..RuntimeLimits::default()
+    };
+    let rt: RT = limits.to_runtime(RecWriter::default(), RecClock { now: 0.0 });
+    match req["f"].as_str().unwrap_or("") {
+        "consts" => {
+            let mut m = serde_json::Map::new();
+            for (k, v) in ha::size_constants(&rt) {
+                m.insert(k.to_string(), json!(v));
+            }
+            m.insert("string_value_10".into(), json!(ha::string_value_size(&rt, 10)));
+            Value::Object(m)
+        }
+        "trace" => {
+            let mut live: HashMap<u64, Live> = HashMap::new();
+            let mut steps = Vec::new();
+            let empty = vec![];
+            for ev in req["events"].as_array().unwrap_or(&empty) {
+                let kind = ev[0].as_str().unwrap_or("");
+                let a = ev[1].as_u64().unwrap_or(0);
+                let b = ev.get(2).and_then(|x| x.as_u64()).unwrap_or(0) as usize;
+                let outcome = match kind {
+                    "a" => match ha::allocate_bytes(&rt, b) {
+                        Ok(rec) => {
+                            live.insert(a, Live::Recorded(rec));
+                            format!("ok {rec}")
+                        }
+                        Err(_) => "viol".to_string(),
+                    },
+                    "e" => match ha::managed_error(&rt, b) {
+                        Ok(v) => {
+                            live.insert(a, Live::Value(Box::new(v)));
+                            "ok".to_string()
+                        }
+                        Err(_) => "viol".to_string(),
+                    },
+                    "s" => match ha::managed_string(&rt, b) {
+                        Ok(v) => {
+                            live.insert(a, Live::Value(Box::new(v)));
+                            "ok".to_string()
+                        }
+                        Err(_) => "viol".to_string(),
+                    },
+                    "d" => match live.remove(&a) {
+                        Some(Live::Recorded(rec)) => {
+                            ha::deallocate_bytes(&rt, rec);
+                            "ok".to_string()
+                        }
+                        Some(Live::Value(v)) => {
+                            drop(v);
+                            "ok".to_string()
+                        }
+                        None => "noop".to_string(),
+                    },
+                    "p" => match rt.can_allocate(a as usize) {
+                        Ok(()) => "ok".to_string(),
+                        Err(_) => "viol".to_string(),
+                    },
+                    _ => "bad-op".to_string(),
+                };
+                steps.push(json!([outcome, hooks::stats_size(&rt)]));
+            }
+            // everything still live is dropped here
+            let before = hooks::stats_size(&rt);
+            for (_, l) in live.drain() {
+                if let Live::Recorded(rec) = l {
+                    ha::deallocate_bytes(&rt, rec)
+                }
+            }
+            json!({"steps": steps, "size_before_cleanup": before, "size_final": hooks::stats_size(&rt)})
+        }
+        _ => json!({"bad-op": true}),
+    }
 }
